@@ -144,6 +144,11 @@ def check_counts(ctx, case):
                       {'chi': got, 'expected': want,
                        'case': case.describe()}, feats)
         return False
+    prob = GH.flag_combinations_agree(obj)
+    if prob:
+        ctx.violation('published_counts', 'name_flag_combinations',
+                      {'problems': prob, 'case': case.describe()}, feats)
+        return False
     return True
 
 
